@@ -355,7 +355,7 @@ def _set_params(t, tab, scale):
 def _transform(kind, D, tier, tab):
     import deepali.spatial as S
 
-    small = kind in ("DDF", "SVF", "SeqAffineDDF")
+    small = kind in ("DDF", "SVF", "SeqAffineDDF", "MultiLevelDDF", "GenericAffineSVF")
     g = _grid(D, tier, small=small)
     if kind == "Translation":
         t, sc = S.Translation(g), 0.2
@@ -394,11 +394,16 @@ def _transform(kind, D, tier, tab):
     elif kind == "SVF":
         t, sc = S.StationaryVelocityFieldTransform(g, steps=3), 0.12
     elif kind == "FFD":
-        t, sc = S.FreeFormDeformation(g, stride=3), 0.12
+        t, sc = S.FreeFormDeformation(g, stride=4 if (D == 3 and tier == "quick") else 3), 0.12
     elif kind == "SVFFD":
-        t, sc = S.StationaryVelocityFreeFormDeformation(g, stride=3, steps=3), 0.12
+        t, sc = S.StationaryVelocityFreeFormDeformation(g, stride=4 if (D == 3 and tier == "quick") else 3, steps=3), 0.12
     elif kind == "SeqAffineDDF":
         t, sc = S.SequentialTransform(S.AffineTransform(g), S.DisplacementFieldTransform(g)), 0.1
+    elif kind == "MultiLevelDDF":
+        t, sc = S.MultiLevelTransform(S.DisplacementFieldTransform(g), S.DisplacementFieldTransform(g, stride=2)), 0.08
+    elif kind == "GenericAffineSVF":
+        cfg = S.TransformConfig(transform="Affine o SVF", affine_model="TRS")
+        t, sc = S.GenericSpatialTransform(g, config=cfg), 0.1
     else:
         raise KeyError(kind)
     t = t.double()
@@ -409,9 +414,10 @@ def _transform(kind, D, tier, tab):
 TRANSFORM_KINDS = (
     "Translation", "EulerRotation", "EulerRotationZXZ", "QuaternionRotation", "IsotropicScaling", "AnisotropicScaling", "Shearing",
     "HomogeneousTransform", "RigidTransform", "RigidQuaternionTransform", "SimilarityTransform", "AffineTransform",
-    "FullAffineTransform", "DDF", "SVF", "FFD", "SVFFD", "SeqAffineDDF",
+    "FullAffineTransform", "DDF", "SVF", "FFD", "SVFFD", "SeqAffineDDF", "MultiLevelDDF", "GenericAffineSVF",
 )
-INVERTIBLE = tuple(k for k in TRANSFORM_KINDS if k not in ("DDF", "FFD", "SeqAffineDDF"))
+INVERTIBLE = tuple(k for k in TRANSFORM_KINDS if k not in ("DDF", "FFD", "SeqAffineDDF", "MultiLevelDDF", "GenericAffineSVF"))
+POINT_VIEWS = ("AffineTransform", "SVF", "FFD", "SeqAffineDDF")
 
 
 def _params(t):
@@ -456,6 +462,24 @@ def _mk_transform_entries():
             tr = S.ImageTransformer(t).double()
             return Entry(f"{kind}.ImageTransformer", _params(t), lambda: tr(img))
 
+        if kind in POINT_VIEWS:
+            def b_pts(D, tab, tier, kind=kind):
+                import deepali.spatial as S
+
+                t = _transform(kind, D, tier, tab)
+                if t is None:
+                    return None
+                g = t.grid()
+                xw = g.transform_points(_points(D, tab, M=5, salt=6, lim=0.6), axes=t.axes(), to_axes="world", decimals=None).double()
+                pst = S.PointSetTransformer(t, axes="world", to_axes="grid")
+
+                def f():
+                    t.update()
+                    return t.points(xw, axes="world", to_axes="world"), pst(xw)
+
+                return Entry(f"{kind}.points", _params(t), f)
+
+            ENTRIES[f"transform/{kind}/points+PointSetTransformer"] = (b_pts, (2, 3))
         ENTRIES[f"transform/{kind}/call"] = (b_call, (2, 3))
         ENTRIES[f"transform/{kind}/call-wrt-points"] = (b_points_in, (2, 3))
         ENTRIES[f"transform/{kind}/disp"] = (b_disp, (2, 3))
@@ -1075,10 +1099,27 @@ for _cls, _kw, _kind in MODULE_LOSSES:
 
 
 # ---------------------------------------------------------------------------
+def _quick_skips_3d(name):
+    """Quick tier: the 3-D instance of near-duplicate heavy entries is left to the thorough tier (2-D instance stays)."""
+    if name.startswith("core/compose_svfs/bch_terms=") and name[-1] in "02345":
+        return True
+    if name.startswith("core/logv") or name in ("loss-module/Bending", "loss-module/BSplineBending", "loss-module/Curvature"):
+        return True
+    if name.startswith("core/evaluate_cubic_bspline/stride=") and name.endswith("transpose=True"):
+        return True
+    if name.startswith("loss/") and name.endswith("/reduction=none") and not name.startswith("loss/grad_loss[p=2,q=1]"):
+        return True
+    if name.startswith("core/expv/steps=") and name.endswith("ac=F") and "steps=4" not in name:
+        return True
+    return False
+
+
 def menu(tier):
     out = []
     for name, (b, dims) in ENTRIES.items():
         for D in dims:
+            if tier == "quick" and D == 3 and _quick_skips_3d(name):
+                continue
             out.append((name, D))
     return out
 
@@ -1111,7 +1152,7 @@ def _record(acc, shard, res):
             acc.state(name, D, tab, iname, j)
     for iname, o in res["outcome"]:
         for j, v in enumerate(o):
-            acc.outcome(name, D, tab, iname, j, v)  # distinct normalised derivative values, per coordinate
+            acc.outcome(name, D, iname, v)  # distinct normalised derivative values observed for this input
     for u in res["undef"]:
         if isinstance(u, tuple):
             acc.undef(u[0], u[1])
